@@ -26,7 +26,7 @@ where
 {
     let mut acc = Acc::new();
     let pname = format!("{}<-{}", aname, bname);
-    let ncases = ctx.n(400, 40000);
+    let ncases = ctx.n(400, 400000);
     let round = |v: f64| -> f64 {
         if A::IS_F32 {
             v as f32 as f64
